@@ -56,6 +56,7 @@ fn hist(args: &[String]) {
     let fwonly = args.get(5).map(|s| s == "fw").unwrap_or(false);
     let ptfc = args.get(5).map(|s| s == "ptfc").unwrap_or(false);
     let ptfc_chain = args.get(5).map(|s| s == "ptfc-chain").unwrap_or(false);
+    let gdelay = args.get(5).map(|s| s == "gdelay").unwrap_or(false);
     let gtfc = args.get(5).map(|s| s == "gtfc").unwrap_or(false);
     let gptfc = args.get(5).map(|s| s == "gptfc").unwrap_or(false);
     let ptfc = ptfc || gptfc;
@@ -80,7 +81,7 @@ fn hist(args: &[String]) {
     let only: Option<u64> = std::env::var("QV_ONLY").ok().and_then(|s| s.parse().ok());
     for k in 0..n {
         let g = GenCfg { max_nodes: 10, max_ops: 14, allow_fw: !basic && (!cyclic || cyclic_all), allow_proj: !basic && !fwonly && (!cyclic || cyclic_all), allow_ext: !basic && !fwonly, allow_group: !basic && !fwonly && !cyclic_ng, restarts: cfg != "mem", cyclic, layered };
-        let s = if tfcmode { gen_scenario_tfc(&mut r, ptfc || ptfc_chain, ptfc_chain, gtfc || gptfc) } else { gen_scenario(&mut r, &g) };
+        let s = if gdelay { gen_scenario_gdelay(&mut r) } else if tfcmode { gen_scenario_tfc(&mut r, ptfc || ptfc_chain, ptfc_chain, gtfc || gptfc) } else { gen_scenario(&mut r, &g) };
         if let Some(only) = only { if only != k { continue; } }
         if std::env::var("QV_TRACE_SCN").is_ok() { std::fs::write(format!("{dir}/current.txt"), scenario_coq(&s)).unwrap(); }
         let done = runtime.block_on(async { tokio::time::timeout(Duration::from_secs(hang_secs), run_scenario(&s, &cfg, cyclic)).await });
